@@ -13,7 +13,7 @@ from vf.xmodel import Schema, Rop, build_api, build_loader
 
 SHARDS = {'quick': 16, 'thorough': 32}
 TIMEOUT = {'quick': 900, 'thorough': 5400}
-MUST_HIT = ['SortOracle.some-whole-chains', 'SortOracle.ring-with-outsiders', 'SortOracle.other-reflexive-associations', 'SortOracle.after-edit-history', 'SortOracle.mixed-subset-termination', 'SortOracle.chains', 'SortOracle.ring', 'StepBudget.guarded-calls', 'SortOracle.subset-termination']
+MUST_HIT = ['SortOracle.same-set-sorted-before-and-after-edits', 'SortOracle.some-whole-chains', 'SortOracle.ring-with-outsiders', 'SortOracle.other-reflexive-associations', 'SortOracle.after-edit-history', 'SortOracle.mixed-subset-termination', 'SortOracle.chains', 'SortOracle.ring', 'StepBudget.guarded-calls', 'SortOracle.subset-termination']
 MUST_REACH = ['xtuml/meta.py:sort_reflexive', 'xtuml/meta.py:sort_reflexive.<locals>.sequence_generator']
 ANCHORS = MUST_REACH
 MIN_NONTRIVIAL = {'quick': 500, 'thorough': 500}
@@ -171,19 +171,24 @@ def check_edited(ctx, budget, rng, n, route):
         xtuml.relate(insts[a[0][-1]], insts[a[0][0]], 1, 'precedes')
         la.add((a[0][-1], a[0][0]))
     lb = set((x, y) for c in b for x, y in zip(c, c[1:]))
+    order = list(range(n))
+    rng.shuffle(order)
+    # the set object that is sorted after the edits has been sorted before them, too
+    qs = xtuml.QuerySet([insts[i] for i in order])
+    if not ring and rng.random() < 0.6:
+        ctx.hit('SortOracle.same-set-sorted-before-and-after-edits')
+        verify_chain_set(ctx, budget, insts, n, tuple(a), order, qs)
     for (x, y) in sorted(la - lb):
         xtuml.unrelate(insts[x], insts[y], 1, 'precedes')
     for (x, y) in sorted(lb - la):
         xtuml.relate(insts[x], insts[y], 1, 'precedes')
     ctx.hit('SortOracle.after-edit-history')
-    order = list(range(n))
-    rng.shuffle(order)
-    verify_chains(ctx, budget, insts, n, tuple(b), order)
+    verify_chains(ctx, budget, insts, n, tuple(b), order, qs)
     return a, b
 
 
-def verify_chains(ctx, budget, insts, n, chains, order):
-    verify_chain_set(ctx, budget, insts, n, chains, order)
+def verify_chains(ctx, budget, insts, n, chains, order, qs=None):
+    verify_chain_set(ctx, budget, insts, n, chains, order, qs)
     if len(chains) >= 2:
         # a set made up of some of the whole chains, while the class holds the other chains too
         ctx.hit('SortOracle.some-whole-chains')
@@ -192,11 +197,12 @@ def verify_chains(ctx, budget, insts, n, chains, order):
         verify_chain_set(ctx, budget, insts, n, some, [i for i in order if i in keep])
 
 
-def verify_chain_set(ctx, budget, insts, n, chains, order):
+def verify_chain_set(ctx, budget, insts, n, chains, order, qs=None):
     import xtuml
     idx = dict((id(x), i) for i, x in enumerate(insts))
     members = [insts[i] for i in order]
-    qs = xtuml.QuerySet(members)         # one set object, sorted across both phrases in turn
+    if qs is None:
+        qs = xtuml.QuerySet(members)     # one set object, sorted across both phrases in turn
     for phrase in ('succeeds', 'precedes'):
         ctx.hit('SortOracle.chains')
         got = [idx[id(x)] for x in call_sort(budget, qs, n, phrase)]
